@@ -64,7 +64,7 @@ func (w *MemoWork) ShapeName() string {
 	return s
 }
 
-const maxExecs = 64
+const maxExecs = 512 // more than any generated workload can execute (thorough: 16 callers x 5 calls, each possibly with a nested call)
 
 type mexec struct {
 	Key      int
@@ -337,6 +337,11 @@ func (w *MemoWork) Post(out *RunOut) {
 	}
 	for _, c := range h.Calls {
 		if c.Panic != "" {
+			if strings.Contains(c.Panic, "harness: ") {
+				// the harness's own callback gave up (a bound of the harness, not of Memoize): trouble, never a violation
+				out.Violations = append(out.Violations, Violation{Class: "harness", Identity: "c17:harness-callback-panicked", Detail: c.Panic})
+				return
+			}
 			fail("panic", "Memoize panicked: %s", c.Panic)
 			return
 		}
